@@ -58,6 +58,9 @@
 #ifndef VF_MTNZ
 #define VF_MTNZ 0  // 1: maxThreads != 0
 #endif
+#ifndef VF_ITLAYOUT
+#define VF_ITLAYOUT 1
+#endif
 #ifndef VF_RECUR
 #define VF_RECUR 1  // 1: additionally every configuration with the caller already inside a parallel-for chunk
 #endif
@@ -78,7 +81,24 @@ struct IdxIt {
   using difference_type = std::ptrdiff_t;
   using pointer = Elem*;
   using reference = Elem&;
+#if VF_ITLAYOUT == 1
+  // 16 bytes, index in the second word, member-wise (user-provided) copy: SmallVector<Iter,64>'s inline
+  // buffer is a union with {T* ptr; size_t capacity} and clang types the union by that member, so
+  // element 0 of the inline buffer overlays (ptr, capacity).  Keeping the index off the pointer-typed
+  // word keeps it a plain integer for the symbolic executor; the pad word is only ever written.
+  int64_t pad;
+  int64_t idx;
+  IdxIt() : pad(0), idx(0) {}
+  IdxIt(const IdxIt& o) : pad(0), idx(o.idx) {}
+  IdxIt& operator=(const IdxIt& o) {
+    idx = o.idx;
+    return *this;
+  }
+#elif VF_ITLAYOUT == 2
+  int64_t idx;
+#else
   int32_t idx;
+#endif
   Elem& operator*() const {
     return g_cnt[idx];
   }
@@ -131,21 +151,21 @@ struct RandIt : IdxIt<std::random_access_iterator_tag> {
     return *this;
   }
   RandIt& operator+=(std::ptrdiff_t d) {
-    idx += (int32_t)d;
+    idx += (decltype(idx))d;
     return *this;
   }
   RandIt& operator-=(std::ptrdiff_t d) {
-    idx -= (int32_t)d;
+    idx -= (decltype(idx))d;
     return *this;
   }
   RandIt operator+(std::ptrdiff_t d) const {
     RandIt t = *this;
-    t.idx += (int32_t)d;
+    t.idx += (decltype(idx))d;
     return t;
   }
   RandIt operator-(std::ptrdiff_t d) const {
     RandIt t = *this;
-    t.idx -= (int32_t)d;
+    t.idx -= (decltype(idx))d;
     return t;
   }
   std::ptrdiff_t operator-(const RandIt& o) const {
@@ -246,7 +266,7 @@ VF_NOINLINE static void runConfig(uint32_t N, bool wait, uint32_t n, uint32_t ma
 
   if (maxThreads <= 1) {
     // documented: "Setting maxThreads to zero or one will result in serial operation"
-    vf_check(ts.stored == 0 || !wait, "serial operation: with wait=true nothing is left to other threads");
+    vf_check(g_stored == 0 || !wait, "serial operation: with wait=true nothing is left to other threads");
   }
   if (!wait) {
     if (ts.numPending() > 0) {
@@ -258,7 +278,7 @@ VF_NOINLINE static void runConfig(uint32_t N, bool wait, uint32_t n, uint32_t ma
     ts.wait();
   } else {
     vf_check(ts.numPending() == 0, "wait=true: no task of the call is still pending when it returns");
-    if (ts.stored > 0) {
+    if (g_stored > 0) {
       vf_reach("wait=true: chunks were queued and ran on other threads");
     }
   }
@@ -269,7 +289,7 @@ VF_NOINLINE static void runConfig(uint32_t N, bool wait, uint32_t n, uint32_t ma
     vf_check(i < (int)n || g_cnt[i] == 0, "no element beyond the first n is touched");
   }
   vf_check(g_applied == (int)n, "the functor ran n times in total");
-  vf_check(ts.executed == ts.scheduled, "every closure handed to the task set ran exactly once");
+  vf_check(g_executed == g_scheduled, "every closure handed to the task set ran exactly once");
   g_ts = nullptr;
 }
 
@@ -289,7 +309,7 @@ constexpr int kNumRecur = VF_RECUR ? 2 : 1;
 constexpr int kTotal = kNumN * kNumPool * kNumWait * kNumMT * kNumRecur;
 
 template <int K>
-VF_NOINLINE static void scenario(uint32_t anyMT) {
+static inline void scenario(uint32_t anyMT) {
   constexpr int n = VF_MINN + K % kNumN;
   constexpr int k1 = K / kNumN;
   constexpr int N = VF_NPOOL_LO + k1 % kNumPool;
@@ -302,19 +322,24 @@ VF_NOINLINE static void scenario(uint32_t anyMT) {
   runConfig((uint32_t)N, wait, (uint32_t)n, VF_ANYMT ? anyMT : kMT[mt], recur);
 }
 
-template <int K>
+// balanced selector tree (noinline nodes, so that the compiler cannot flatten it into one switch): the
+// path guard of a scenario is a conjunction of ~log2(kTotal) comparisons rather than of kTotal
+template <int Lo, int Hi>
 struct Tree {
-  static void go(uint32_t sel, uint32_t anyMT) {
-    if (sel == (uint32_t)K) {
-      scenario<K>(anyMT);
+  VF_NOINLINE static void go(uint32_t sel, uint32_t anyMT) {
+    constexpr int Mid = Lo + (Hi - Lo) / 2;
+    if (sel <= (uint32_t)Mid) {
+      Tree<Lo, Mid>::go(sel, anyMT);
     } else {
-      Tree<K - 1>::go(sel, anyMT);
+      Tree<Mid + 1, Hi>::go(sel, anyMT);
     }
   }
 };
-template <>
-struct Tree<-1> {
-  static void go(uint32_t, uint32_t) {}
+template <int K>
+struct Tree<K, K> {
+  VF_NOINLINE static void go(uint32_t, uint32_t anyMT) {
+    scenario<K>(anyMT);
+  }
 };
 
 extern "C" void vf_main() {
@@ -326,5 +351,5 @@ extern "C" void vf_main() {
   vf_assume(anyMT != 0);
 #endif
 #endif
-  Tree<kTotal - 1>::go(sel, anyMT);
+  Tree<0, kTotal - 1>::go(sel, anyMT);
 }
